@@ -25,12 +25,14 @@ import (
 // Universe: U0 = main creator and source of liquidity tokens, U1..U4 = farmers (U1 may also create pools,
 // U4 is poor: lpt only), U5 = stranger (poor).
 const (
+	communityCreator = -1 // model creator index of a pool created out of the community pool
 	nFarmers   = 4
 	maxPools   = 3
 	strangerID = 5
 )
 
 var (
+	distrAddr     = chain.ModuleAddr("distribution")
 	farmAddr      = chain.ModuleAddr(farmtypes.ModuleName)
 	collectorAddr = chain.ModuleAddr(farmtypes.RewardCollector)
 	feeCollAddr   = chain.ModuleAddr("fee_collector")
@@ -46,7 +48,7 @@ var (
 
 // fop is one operation (plain data; the op list is the replay file).
 type fop struct {
-	K      string   `json:"k"` // create|burst|stake|unstake|harvest|adjust|destroy|block|epilogue
+	K      string   `json:"k"` // create|burst|stake|unstake|harvest|adjust|destroy|block|epilogue|params|restart|cpool
 	Who    int      `json:"who,omitempty"`
 	Pool   int      `json:"pool,omitempty"`   // index in creation order
 	Amt    string   `json:"amt,omitempty"`    // stake/unstake amount
@@ -58,7 +60,12 @@ type fop struct {
 	Rates  []string `json:"rates,omitempty"`  // create: reward per block; adjust: new rate ("" = unchanged)
 	Totals []string `json:"totals,omitempty"` // create: budget; adjust: top-up ("" = none)
 	Sub    []fop    `json:"sub,omitempty"`    // burst: the pool creations executed in this one step
-	Rev    bool     `json:"rev,omitempty"`    // adjust: send the coin lists in descending denom order (VERIF_C05_UNSORTED)
+	Rev    bool     `json:"rev,omitempty"`
+	Fee    string   `json:"fee,omitempty"`    // params: pool creation fee amount
+	FeeD   string   `json:"feed,omitempty"`   // params: pool creation fee denom
+	Tax    string   `json:"tax,omitempty"`    // params: tax rate (decimal text)
+	MaxRD  int      `json:"maxrd,omitempty"`  // params: max reward categories
+	Route  string   `json:"route,omitempty"`  // cpool: genesis | handler | refund    // adjust: send the coin lists in descending denom order (VERIF_C05_UNSORTED)
 }
 
 type machine struct {
@@ -71,6 +78,13 @@ type machine struct {
 	tax   *big.Int
 	feeD  string
 	maxRD int
+	// community pool (distribution FeePool.CommunityPool), integer amounts per denom; only this machine moves it
+	// (the distribution/mint blockers do not run)
+	cpool     map[string]*big.Int
+	hasEscrow bool // the app registers farm's escrow_collector module account (needed by the proposal handlers)
+	nextProp  uint64
+
+	avoidZeroStake, avoidZeroRPS, avoidRestartAtEnd bool
 
 	target int // generator only: pool the next operation must aim at (-1 none)
 	// generator only: many-pools plan
@@ -96,6 +110,9 @@ func newMachine(prop string) *machine {
 	m.avoidF14 = os.Getenv("VERIF_C05_AVOID_F14") != ""
 	m.strict = os.Getenv("VERIF_C05_STRICT") != ""
 	m.unsorted = os.Getenv("VERIF_C05_UNSORTED") != ""
+	m.avoidZeroStake = os.Getenv("VERIF_C05_AVOID_REIMPORT_ZERO_STAKE") != ""
+	m.avoidZeroRPS = os.Getenv("VERIF_C05_AVOID_REIMPORT_ZERO_RPS") != ""
+	m.avoidRestartAtEnd = os.Getenv("VERIF_C05_AVOID_RESTART_AT_END") != ""
 	m.prelude()
 	return m
 }
@@ -161,9 +178,56 @@ func (m *machine) prelude() {
 	m.feeD = params.PoolCreationFee.Denom
 	m.maxRD = int(params.MaxRewardCategories)
 	// tax = floor(fee * taxRate); taxRate is an 18-decimal fixed-point number
-	tr, _ := new(big.Rat).SetString(params.TaxRate.String())
-	t := new(big.Rat).Mul(new(big.Rat).SetInt(m.fee), tr)
-	m.tax = new(big.Int).Quo(t.Num(), t.Denom())
+	m.tax = taxOf(m.fee, params.TaxRate.String())
+	m.cpool = map[string]*big.Int{}
+	fp, err := m.c.E.App.DistrKeeper.FeePool.Get(m.c.Ctx)
+	if err != nil {
+		panic(err)
+	}
+	for _, dc := range fp.CommunityPool {
+		m.cpool[dc.Denom] = dc.Amount.TruncateInt().BigInt()
+	}
+	m.hasEscrow = m.c.E.App.AccountKeeper.GetModuleAddress(farmtypes.EscrowCollector) != nil
+	m.nextProp = 1000
+}
+
+// taxOf = floor(fee * rate) for a decimal rate given as text.
+func taxOf(fee *big.Int, rate string) *big.Int {
+	tr, ok := new(big.Rat).SetString(rate)
+	if !ok {
+		return new(big.Int)
+	}
+	t := new(big.Rat).Mul(new(big.Rat).SetInt(fee), tr)
+	return new(big.Int).Quo(t.Num(), t.Denom())
+}
+
+// creatorAddr: pools created out of the community pool belong to the distribution module account.
+func (m *machine) creatorAddr(p *mpool) sdk.AccAddress {
+	if p.creator == communityCreator {
+		return distrAddr
+	}
+	return m.user(p.creator).Addr
+}
+
+// refundTo books the hand-back of a pool's remaining budget: to the creator, or - community pool farms - to the
+// distribution account together with a credit of the community pool record.
+func (m *machine) refundTo(e *chain.Expect, p *mpool, ref map[string]*big.Int) {
+	for d, a := range ref {
+		e.Move(farmAddr, m.creatorAddr(p), d, a)
+		if p.creator == communityCreator {
+			if _, ok := m.cpool[d]; !ok {
+				m.cpool[d] = new(big.Int)
+			}
+			m.cpool[d].Add(m.cpool[d], a)
+		}
+	}
+	if p.creator == communityCreator {
+		if len(ref) > 0 {
+			m.class("community-pool-farm-ended-with-remaining-budget")
+		} else {
+			m.class("community-pool-farm-ended-without-remaining-budget")
+		}
+	}
 }
 
 func poolID(idx int) string { return fmt.Sprintf("%s-%d", farmtypes.PrefixFarmPool, idx+1) }
@@ -313,6 +377,12 @@ func (m *machine) Apply(o fop) error {
 		if m.prop == "C05" {
 			err = m.epilogue(o.N)
 		}
+	case "params":
+		err = m.applyParams(o)
+	case "restart":
+		err = m.applyBlockOpt(true)
+	case "cpool":
+		err = m.applyCommunityPool(o)
 	default:
 		return nil
 	}
@@ -949,9 +1019,7 @@ func (m *machine) applyBlock() error {
 				return pbt.Failf("C06/budget-short", "pool %s: recorded budget cannot cover the release at its end height %d", p.id, h)
 			}
 			m.expectRelease(e, rel)
-			for d, a := range p.refundAll() {
-				e.Move(farmAddr, m.user(p.creator).Addr, d, a)
-			}
+			m.refundTo(e, p, p.refundAll())
 			if !m.inFinish {
 				m.endedInHist++
 			}
@@ -1046,7 +1114,7 @@ func (m *machine) checkAll() error {
 				r.rate = en.RewardPerBlock.AmountOf(r.denom).BigInt()
 			}
 		} else {
-			if en.StartHeight != p.start || en.Editable != p.editable || en.Creator != m.user(p.creator).Addr.String() {
+			if en.StartHeight != p.start || en.Editable != p.editable || en.Creator != m.creatorAddr(p).String() {
 				return pbt.Failf("C06/pool-fields", "h=%d pool %s: start %d editable %v, expected start %d editable %v", h, p.id, en.StartHeight, en.Editable, p.start, p.editable)
 			}
 			if en.EndHeight != p.end {
